@@ -26,12 +26,31 @@ def gather(chk, tier):
         r = vlib.tlc("PipelineInputs", "PipelineInputs.cfg", constants={"Family": '"%s"' % fam, "K": k}, xss="1g")
         chk.add_tlc(r)
         inputs += [{"src": c["src"], "origin": fam} for c in r.records]
+    # every operator under every operator (typed expression trees of spec/MC_PyExpr.tla, family e2e, as Mamba source)
+    import c10_e2e
+    inputs += [{"src": src, "origin": "expr"} for src in c10_e2e.sources(chk, step=2 if tier == "quick" else 1)]
+    # words of the target language at every kind of user-name position (spec/Rename.tla, WordRenamings)
+    import probes, rename, render
+    r = vlib.tlc("Rename", "Rename.cfg")
+    chk.add_tlc(r)
+    words = sorted(r.records[0]["word_renamings"], key=lambda x: (x["kind"], x["index"], x["to"]))
+    scoped = probes.generate(chk, "MC_C15", ["all"], 0)
+    c01 = [c for c in probes.generate(chk, "MC_C01", ["functions", "classes", "errors", "control"], 0, cfg="MC_C01.cfg")
+           if c["kind"] in ("counter", "inheritance", "explicit-init", "handle-value-arms", "error-field", "for-list", "match-binder", "higher-order", "defaults")]
+    for p in scoped + c01:
+        names = rename.collect(p["prog"])
+        for rn in words:
+            pool = names[rn["kind"]]
+            if rn["index"] > len(pool):
+                continue
+            src, _ = render.program(rename.apply(p["prog"], {pool[rn["index"] - 1]: rn["to"]}))
+            inputs.append({"src": src, "origin": "word:%s/%s %s#%d->%s" % (p.get("family", "MC"), p["kind"], rn["kind"], rn["index"], rn["to"])})
     # The random token mutants use a FIXED seed unless VERIF_EXPLORE=1: the parser/checker accept so much junk that every fresh
     # seed uncovers another unlisted (genuine) C02 defect class, and a check must stay quiet on the unchanged tree.  The fixed slice
     # is a regression corpus; exploration with VERIF_SEED is opt-in (see DESIGN.md, C02).
     import os
     rng = corpus.rng_for(PROP, vlib.seed() if os.environ.get("VERIF_EXPLORE") else 0)
-    base = list(inputs)
+    base = [c for c in inputs if not c["origin"].startswith("word:") and c["origin"] != "expr"]
     for rel, text in corpus.repo_samples():
         inputs.append({"src": text, "origin": "sample:" + rel})
         for j in range(6 if tier == "quick" else 60):
@@ -117,8 +136,6 @@ def explain_case(c, text, err):
     m = re.search(r"line (\d+)\)", err)
     lines = text.splitlines()
     bad = lines[int(m.group(1)) - 1] if m and 0 < int(m.group(1)) <= len(lines) else ""
-    if "f-string" in err or re.search(r'f"[^"]*\{"', bad):
-        return "KF-C02-1"
     if c["origin"].startswith("mutant"):       # shapes that only token-level mutants produce
         if re.search(r"^\s*case ", bad) or "name capture" in err or "patterns unreachable" in err:
             return "KF-C02-6"
@@ -128,18 +145,8 @@ def explain_case(c, text, err):
             return "KF-C02-8"
         if "expected an indented block" in err:
             return "KF-C02-9"
-        if "duplicate argument" in err:
-            return "KF-C02-12"
-    if "var-positional argument cannot have default value" in err or "* argument may appear only once" in err:
-        return "KF-C02-4"
-    if re.search(r"^\s*(class|def) (None|True|False)\b", text, re.M):
-        return "KF-C02-10"
     if "class Union" in c["src"] and re.search(r"^\s*\w+:\s+= ", text, re.M):
         return "KF-C02-11"
-    if re.search(r"^(from \S+ )?import\s*$", text, re.M):
-        return "KF-C02-5"
-    if re.search(r"^\s*= \(\)", text, re.M):
-        return "KF-C02-3"
     return None
 
 
